@@ -175,8 +175,31 @@ Definition offered (k : pkind) (g : graph) (anyd : N) (prims : list cls) (tb : t
   | PRand => sort_dedup (offered_r g tb typ)
   end.
 
+(* TestCluster.update_return_type(g, ..): _drop_generator under the OLD return type (the key is
+   removed when its set becomes empty), add_for_type under the NEW one *)
+Fixpoint tb_drop (tb : table) (old : ty) (g : gen) : table :=
+  match tb with
+  | [] => []
+  | e :: r =>
+      if ty_eqb (fst e) old then
+        let l := filter (fun x => negb (N.eqb x g)) (snd e) in
+        (if nonempty l then [(fst e, l)] else []) ++ tb_drop r old g
+      else e :: tb_drop r old g
+  end.
+
+Fixpoint tb_add (tb : table) (new : ty) (g : gen) : table :=
+  match tb with
+  | [] => [(new, [g])]
+  | e :: r =>
+      if ty_eqb (fst e) new then (fst e, if memN g (snd e) then snd e else snd e ++ [g]) :: r
+      else e :: tb_add r new g
+  end.
+
+Definition tb_update (tb : table) (g : gen) (old new : ty) : table := tb_add (tb_drop tb old g) new g.
+
 Inductive pop :=
 | PQuery (typ : ty)                    (* provider._get_generators_for(typ) *)
+| PUpdate (g : gen) (old new : ty)     (* update_return_type: drop, clear_generator_cache, add *)
 | PTable (tb : table) (clear : bool)   (* the table changed; clear = clear_generator_cache ran *)
 | PEdge (p c : cls)                    (* add_subclass_edge on the type system *)
 | PClear.                              (* clear_generator_cache *)
@@ -198,6 +221,7 @@ Definition pstep (k : pkind) (anyd : N) (prims : list cls) (s : pstate) (o : pop
       | None => let a := offered k (pgr s) anyd prims (ptb s) typ in
                 ({| pgr := pgr s; ptb := ptb s; pca := (typ, a) :: pca s |}, Some a)
       end
+  | PUpdate g old new => ({| pgr := pgr s; ptb := tb_update (ptb s) g old new; pca := [] |}, None)
   | PTable tb clear => ({| pgr := pgr s; ptb := tb; pca := if clear then [] else pca s |}, None)
   | PEdge p c =>
       if has_edge (pgr s) p c then (s, None)
@@ -228,16 +252,30 @@ Definition opt_gens_eqb (a b : option (list gen)) : bool :=
   | _, _ => false
   end.
 
+(* the generator table after every update_return_type of a history *)
+Fixpoint ptables (tb : table) (ops : list pop) : list table :=
+  match ops with
+  | [] => []
+  | PUpdate g old new :: r => let t := tb_update tb g old new in t :: ptables t r
+  | PTable t _ :: r => ptables t r
+  | _ :: r => ptables tb r
+  end.
+
+Definition table_eqb (a b : table) : bool :=
+  forall2b (fun x y => ty_eqb (fst x) (fst y) && gens_eqb (sort_dedup (snd x)) (sort_dedup (snd y))) a b.
+
 Record phcase := {
   ph_kind : pkind; ph_graph : graph; ph_anyd : N; ph_prims : list cls; ph_table : table;
-  ph_ops : list pop; ph_answers : list (option (list gen))
+  ph_ops : list pop; ph_answers : list (option (list gen));
+  ph_tables : list table      (* the real provider's table (keys in dict order) after every update *)
 }.
 
 Definition check_phcase (c : phcase) : bool :=
   forall2b opt_gens_eqb
     (snd (prun (ph_kind c) (ph_anyd c) (ph_prims c)
                {| pgr := ph_graph c; ptb := ph_table c; pca := [] |} (ph_ops c)))
-    (ph_answers c).
+    (ph_answers c)
+  && forall2b table_eqb (ptables (ph_table c) (ph_ops c)) (ph_tables c).
 
 Inductive case := CProviders (c : pcase) | CHistory (c : hcase) | CPHistory (c : phcase).
 Definition check_case (c : case) : bool :=
